@@ -54,6 +54,10 @@ from .. import nnm_rules  # noqa: E402
 def run(chk):
     idx = chk.idx
     nnm_rules.rule_stateless(chk, "C05.R6")  # first: its refutations stand even if a later rule cannot read the code
+    # R7 = C12.R7: no test writes into the caller's sample (a padded / shifted sample left behind makes the next evaluation of
+    # a prefix of the same array run on other numbers than the first)
+    from . import c12 as _c12
+    chk.borrow(_c12.r7_no_input_mutation, {"C12.R7": "C05.R7"})
     reg = nnm.registry(idx)
     fl = nnm.flow(idx, reg)
     chk.explain(
